@@ -41,6 +41,7 @@ impl Rep {
 
 pub fn run(obligation: &str) -> i32 {
     let mut rep = Rep::new();
+    std::panic::set_hook(Box::new(|_| {}));   // panics of the code under contract are reported as outcomes, not printed
     if obligation.starts_with("C03.") { c03_apply_tagenv(&mut rep); return rep.finish("C03_apply_tagenv"); }
     if ["C02.link_components_of", "C05.link_components_of", "C02.has_components_of", "C05.lemma.", "C02.lemma."].iter().any(|p| obligation.starts_with(p)) { c02_components_of(&mut rep); return rep.finish("C02_components_of"); }
     if obligation.starts_with("C02.needs_unnesting") { c02_needs_unnesting(&mut rep); return rep.finish("C02_unnesting"); }
@@ -1167,10 +1168,13 @@ fn c02_components_of(rep: &mut Rep) {
         for nm in ["C02.has_components_of.alternatives_scanned_so_far", "C02.has_components_of.components_scanned_so_far", "C02.has_components_of.safety"] {
             rep.check(nm, has == c02co_has(&ty), || format!("type: {ty:?}; answered {has}"));
         }
-        got.link_components_of_notation(&tlds);
-        let ok = got == want;
+        // a panic of the code under contract is an outcome of this input (e.g. an insert position outside the list)
+        let linked = std::panic::catch_unwind(std::panic::AssertUnwindSafe(|| { let mut g = ty.clone(); g.link_components_of_notation(&tlds); g }));
+        let panicked = linked.is_err();
+        if let Ok(g) = linked { got = g; }
+        let ok = !panicked && got == want;
         let is_seq = matches!(ty, ASN1Type::Sequence(_)); let is_set = matches!(ty, ASN1Type::Set(_)); let is_choice = matches!(ty, ASN1Type::Choice(_));
-        let d = || format!("type before: {ty:?}; after: {got:?}; expected: {want:?}");
+        let d = || if panicked { format!("PANIC in link_components_of_notation; type before: {ty:?}") } else { format!("type before: {ty:?}; after: {got:?}; expected: {want:?}") };
         rep.check("C02.link_components_of.own_components_in_order_plus_exactly_the_root_components_of_every_clause_at_every_depth", ok, d);
         rep.check("C02.link_components_of.safety", ok, d);
         if is_choice { rep.check("C02.link_components_of.alternatives_done_so_far", ok, d); }
